@@ -342,7 +342,7 @@ CLAIMS = {
             "not_decided": "absence of all panics (only input-tainted ones), memory exhaustion by legitimately large data, liveness under slow peers; bounds are hi/lo abstractions, not exact ranges."},
     "C07": {"decided": "Queue gate dominance in process_frame, FIFO-only use of the queue, one result per queued command with no early exit, transaction-state reset on every exit of EXEC/DISCARD (and before execution), no event-loop re-entry from EXEC, identity of the connection handed to re-dispatched commands. No command is refused inside MULTI on a path that skips the queue step; re-dispatch happens with the executing connection; the EXEC-without-MULTI arm is the only exit that needs no reset. A refused transaction-control command writes nothing to the transaction state before its error reply. EXEC re-reads the connection's database before every queued command (a queued SELECT in any spelling governs what follows).",
             "not_decided": "isolation against non-command threads (sweeper, replica apply); equality of each queued command's reply with its stand-alone reply."},
-    "C08": {"decided": "Every dataset mutation site in the storage engine (incl. expiry purges) has a mark_modified of the same key (provenance) in the same function; was_modified_since compares the stamp and consults expiry; register_watch order; the abort test dominates execution and abort edges execute nothing; EXEC/DISCARD/UNWATCH clear the watch set on all paths.",
+    "C08": {"decided": "Every dataset mutation site in the storage engine (incl. expiry purges) has a mark_modified of the same key (provenance) in the same function; was_modified_since compares the stamp and consults expiry; register_watch order; the abort test dominates execution and abort edges execute nothing; EXEC/DISCARD/UNWATCH clear the watch set on all paths. The check at EXEC and the unregistration at UNWATCH take the database from the watch record itself; WATCH of an already watched key keeps the first baseline.",
             "not_decided": "no-false-abort for hash collisions; timing of expiry vs EXEC."},
     "C09": {"decided": "Writer/reader table agreement in rdb.rs: variant->opcode->constructed variant is the identity (both writers); length-class bounds, tags, masks, shifts and byte order consistent with the decoder; per-variant sequence of primitive writes equals the sequence of reads (loop nesting included); count = len() of the iterated collection; no in-band type decision; records with expiry never loaded persistent; database selector flow. Dataset text parsed as a number by the snapshot writer replaces the text only under a round trip; every reader function dispatching on the type byte consumes what the writer emits; per-record loader state is reset on every successful exit of its consumer. The record loader returns successfully only after handing the record's TTL to a storage call, or where the TTL is known to be None. No score-range call used by the writers gets the finite extremes f64::MIN / f64::MAX as a bound.",
             "not_decided": "equality of the loaded dataset for every dataset (needs execution), TTL clock granularity, consumer groups (not persisted)."},
@@ -356,7 +356,7 @@ CLAIMS = {
             "not_decided": "FIFO service order, promptness, timeout accuracy, multiset conservation over whole histories."},
     "C14": {"decided": "Per-connection sets and global maps updated together with the same connection id, emptied entries removed; acknowledged count = channels.len()+patterns.len() after the update; PUBLISH replies with the length of the list it delivers to; no per-connection de-duplication; pattern receivers only under a match test; closing connections always removed with full clean-up; a connection's subscription record is dropped only when both its channel and pattern sets are empty. Channel, pattern and payload bytes reach the subscription manager and the message formatters with no lossy / UTF-8-only decoding, case mapping, cutting or sorting on their interprocedural value flow.",
             "not_decided": "per-publisher order across connections, glob semantics of patterns (the matcher's backtracking algorithm is value-level: seeded change C14-glob-backtrack-pruning is recorded as not detected)."},
-    "C15": {"decided": "Explicit-ID append dominated by the id > last_id test (refusal edge effect-free); only additions write the last-ID state (field and atomics together), trim/delete never; every entry-vector change has the matching length-counter update; dispatcher arms and failure atomicity; stream-mutating engine methods never remove the key (last-ID state survives emptying); the ID parser accumulates with checked arithmetic; XADD * is refused at the top of the ID space; ID arithmetic on client-chosen IDs is checked. Sequences looked up by binary search are kept sorted by every function that grows them; a ring buffer's readers see both slices; the XLEN counter moves by the number of entries really removed. Field names and values reach the engine as the client's bytes.",
+    "C15": {"decided": "Explicit-ID append dominated by the id > last_id test (refusal edge effect-free); only additions write the last-ID state (field and atomics together), trim/delete never; every entry-vector change has the matching length-counter update; dispatcher arms and failure atomicity; stream-mutating engine methods never remove the key (last-ID state survives emptying); the ID parser accumulates with checked arithmetic; XADD * is refused at the top of the ID space; ID arithmetic on client-chosen IDs is checked. Sequences looked up by binary search are kept sorted by every function that grows them; a ring buffer's readers see both slices; the XLEN counter moves by the number of entries really removed. Field names and values reach the engine as the client's bytes. The inclusive end of a range read is never a saturating decrement of a search insertion point (a range before the first entry is empty).",
             "not_decided": "range exactness (binary-search index arithmetic), auto-ID vs wall clock."},
     "C16": {"decided": "Both pending indexes updated together; consumer pending_count and total_pending move with the PEL; XACK counts only on the Some edge of removal; deliveries advance the cursor on both sides of NOACK; creation start position initialises the cursor; refused group administration has no effect. The per-consumer index and every other binary-searched sequence stay sorted under every insertion; idle times count from last_delivery; cached XPENDING bounds are derived from the index. The delivery cursor is read only where entries are delivered or the cursor is administered (XACK/XCLAIM/XPENDING are decided by the pending list alone). No Err result after a state mutation inside the group objects and no error reply after a state-mutating call in the handlers (refused administration and refused XREADGROUP leave groups, cursors and pending lists as they were).",
             "not_decided": "exactly-once delivery across consumers over histories, XPENDING bounds values, XCLAIM idle-time semantics."},
